@@ -919,7 +919,14 @@ fn decode_cloud(log: &[u8], phys_len: u64, c: &mut Cloud, ci: usize, opt: &Optio
         r.p("R6", format!("{w}: packets end at logical {pos}, section ends at {sec_end}"));
     }
     if !index_ok {
-        r.p("R6", format!("{w}: index offset {index_off} does not land on an index packet of this section"));
+        // the index packet may also lie between the section header and the data offset
+        let lands = page::phys_to_log(index_off).filter(|l| *l >= ls + 32 && *l + 16 <= sec_end).map_or(false, |l| {
+            let p = l as usize;
+            log[p] == 0 && (u16le(log, p + 2) as u64 + 1) % 4 == 0 && l + u16le(log, p + 2) as u64 + 1 <= sec_end
+        });
+        if !lands {
+            r.p("R6", format!("{w}: index offset {index_off} does not land on an index packet of this section"));
+        }
     }
     if si.packets.first().map_or(false, |p| p.log_off != dl) {
         r.p("R6", format!("{w}: data offset does not land on a packet"));
